@@ -967,7 +967,7 @@ func (g *SysGen) mvBcAuthorize() {
 
 func (g *SysGen) mvCibaPoll() {
 	op := Op{Kind: "Token", Grant: "urn:openid:params:grant-type:ciba", HG: "HgOk"}
-	op.BA = pick(g.R, []string{"BaApprove", "BaApprove", "BaPending", "BaPending", "BaSlowDown", "BaDeny", "BaFail"})
+	op.BA = pick(g.R, []string{"BaApprove", "BaApprove", "BaPending", "BaPending", "BaSlowDown", "BaDeny", "BaFail", "BaNarrow"})
 	if g.chance(g.DevRate / 4) {
 		op.HG = pick(g.R, []string{"HgDeny", "HgFail"})
 	}
@@ -995,7 +995,11 @@ func (g *SysGen) mvCibaPoll() {
 	}
 	o := g.do(op)
 	if a != nil {
-		g.learnTokens(o, a.Client, a.Granted, a.GrantedRes)
+		granted := a.Granted
+		if op.BA == "BaNarrow" {
+			granted = "openid" // what the validation callback left of the grant
+		}
+		g.learnTokens(o, a.Client, granted, a.GrantedRes)
 	}
 }
 
